@@ -13,8 +13,21 @@ enum Step {
     Deliver(usize),
     Interrupted,
     Eof,
-    Hard,
+    Hard(u8),
 }
+
+fn hard_kind(h: u8) -> ErrorKind {
+    // every kind but Interrupted is a hard error for read_n ("stops at the first non-interrupt error")
+    match h % 6 {
+        0 => ErrorKind::Other,
+        1 => ErrorKind::WouldBlock,
+        2 => ErrorKind::TimedOut,
+        3 => ErrorKind::BrokenPipe,
+        4 => ErrorKind::UnexpectedEof,
+        _ => ErrorKind::ConnectionReset,
+    }
+}
+
 
 struct Script<'a> {
     steps: &'a [Step],
@@ -51,10 +64,10 @@ impl<'a> Read for Script<'a> {
                 self.last_err = Some(ErrorKind::Interrupted);
                 Err(ErrorKind::Interrupted.into())
             }
-            Step::Hard => {
-                self.last_err = Some(ErrorKind::BrokenPipe);
+            Step::Hard(h) => {
+                self.last_err = Some(hard_kind(h));
                 self.finished = true;
-                Err(ErrorKind::BrokenPipe.into())
+                Err(hard_kind(h).into())
             }
         }
     }
@@ -68,7 +81,7 @@ fn fail(what: &str, steps: &[Step], count: usize, attempts: usize, used: bool) -
 
 #[test]
 fn verif_native_read_n_scripts() {
-    let alphabet = [Step::Deliver(1), Step::Deliver(3), Step::Deliver(5), Step::Deliver(8), Step::Deliver(13), Step::Interrupted, Step::Eof, Step::Hard];
+    let alphabet = [Step::Deliver(1), Step::Deliver(3), Step::Deliver(5), Step::Deliver(8), Step::Deliver(13), Step::Interrupted, Step::Eof, Step::Hard(0), Step::Hard(1), Step::Hard(2), Step::Hard(3), Step::Hard(4)];
     let counts = [0usize, 1, 2, 7, 8, 9, 64, 4095, 4096, 4097, 8192, 70000];
     let mut scripts: Vec<Vec<Step>> = vec![vec![]];
     let mut frontier: Vec<Vec<Step>> = vec![vec![]];
